@@ -164,6 +164,7 @@ harness!(se_get_or_insert_with__s8_8g4, se_elem, S8_8G4, El::GetOrInsertWith);
 harness!(se_get_or_insert_owned__u4f, se_elem, U4F, El::GetOrInsertOwned);
 harness!(se_retain__s8_8g0, se_elem, S8_8G0, El::Retain);
 harness!(se_clear__s8_8g4, se_elem, S8_8G4, El::Clear);
+harness!(se_clear__s8m0_4a, se_elem, S8M0_4A, El::Clear);
 harness!(se_extend1__s8_4a, se_elem, S8_4A, El::Extend1);
 
 /// drain / iter / into_iter of a set
